@@ -72,7 +72,7 @@ func (s *Scheme) handleSync(msg *IncMessage) {
 	s.lock.RUnlock()
 
 	if !exists {
-		s.Logger.Debugf("Received SYNC message for topic %s from %d but no instance expects it", hex.EncodeToString(msg.Topic)[:8], msg.Source)
+		s.Logger.Debugf("Received SYNC message for topic %s from %d but no instance expects it", hex.EncodeToString(prefix(msg.Topic, 4)), msg.Source)
 		return
 	}
 
@@ -80,20 +80,20 @@ func (s *Scheme) handleSync(msg *IncMessage) {
 }
 
 func (s *Scheme) handleMPC(msg *IncMessage) {
-	s.Logger.Debugf("msg on topic %s from %d", hex.EncodeToString(msg.Topic[:8]), msg.Source)
+	s.Logger.Debugf("msg on topic %s from %d", hex.EncodeToString(prefix(msg.Topic, 8)), msg.Source)
 	s.lock.RLock()
 	handleRBC, rbcExists := s.rbcInProgress[string(msg.Topic)]
 	classifier, classifierExists := s.messageClassifiers[string(msg.Topic)]
 	s.lock.RUnlock()
 
 	if !rbcExists {
-		s.Logger.Warnf("Received MPC message for topic %s but no RBC instance expects it", hex.EncodeToString(msg.Topic)[:8])
+		s.Logger.Warnf("Received MPC message for topic %s but no RBC instance expects it", hex.EncodeToString(prefix(msg.Topic, 4)))
 		s.Logger.Warnf("RBCMessage: %s", base64.StdEncoding.EncodeToString(msg.Data))
 		return
 	}
 
 	if !classifierExists {
-		s.Logger.Warnf("Received MPC message for topic %s but no classifier for it", hex.EncodeToString(msg.Topic)[:8])
+		s.Logger.Warnf("Received MPC message for topic %s but no classifier for it", hex.EncodeToString(prefix(msg.Topic, 4)))
 		return
 	}
 
@@ -132,7 +132,7 @@ func (s *Scheme) handleRBC(msg *IncMessage, rbcEncoding rbcEncoding, classifier 
 	rbcMsg.digest = hash(rawMsgBytes)
 
 	s.Logger.Debugf("Received MPC %smessage from %d on topic %s for round %d",
-		broadcastString, msg.Source, hex.EncodeToString(msg.Topic[:8]), msgRound)
+		broadcastString, msg.Source, hex.EncodeToString(prefix(msg.Topic, 8)), msgRound)
 
 	handleRBC(&rbcMsg, msg.Source)
 }
@@ -141,7 +141,7 @@ func (s *Scheme) handleAck(msg *IncMessage, round uint8, sender uint16, digest [
 	var rbcMsg rbcMsg
 
 	s.Logger.Debugf("Received RBC ack for topic %s with digest %s on round %d about %d from %d",
-		hex.EncodeToString(msg.Topic[:8]), hex.EncodeToString(digest[:8]), round, sender, msg.Source)
+		hex.EncodeToString(prefix(msg.Topic, 8)), hex.EncodeToString(prefix(digest, 8)), round, sender, msg.Source)
 	rbcMsg.digest = digest
 	rbcMsg.sender = sender
 	rbcMsg.round = round
@@ -282,7 +282,7 @@ func (s *Scheme) runDKG(ctx context.Context, membership *membership, dkgProtocol
 		broadcastParties := excludeUniversal(membership.universalIdentifiers, s.SelfID)
 
 		rbc := s.RBF(func(digest string, sender uint16, msgRound uint8) {
-			s.Logger.Debugf("Broadcasting ack with digest %s for round %d about %d", hex.EncodeToString([]byte(digest)[:8]), msgRound, sender)
+			s.Logger.Debugf("Broadcasting ack with digest %s for round %d about %d", hex.EncodeToString(prefix([]byte(digest), 8)), msgRound, sender)
 			payload := newRBCEncoding(digest, sender, msgRound)
 			s.Send(uint8(MsgTypeMPC), dkgTopicHash, payload, broadcastParties...)
 		}, func(m interface{}, from uint16) {
@@ -892,6 +892,10 @@ func (r rbcEncoding) Payload() []byte {
 }
 
 func (r rbcEncoding) Ack() (digest []byte, sender uint16, msgRound uint8, err error) {
+	if len(r) == 0 {
+		return nil, 0, 0, fmt.Errorf("empty message")
+	}
+
 	// In ack messages, the MSB of the first byte is 0
 	if r[0]>>7 != 0 {
 		return nil, 0, 0, nil
@@ -909,6 +913,14 @@ func (r rbcEncoding) Ack() (digest []byte, sender uint16, msgRound uint8, err er
 	// The remaining bytes are the digest
 	digest = r[3:]
 	return
+}
+
+// prefix returns the first n bytes of b, or all of b if it is shorter
+func prefix(b []byte, n int) []byte {
+	if len(b) < n {
+		return b
+	}
+	return b[:n]
 }
 
 func universalIDsToUInts(in []UniversalID) []uint16 {
